@@ -15,7 +15,7 @@
            chomping     strip, clip, keep
            indentation  explicit (1-9, either indicator order) or auto-detected, content indentation >= 1
            parent       any scanner state (parent indentation = what unroll_non_block_indents leaves, -1 at top level)
-           header       indicators directly followed by the line feed (no header comment / trailing blanks)
+           header       indicators, then white space (blanks, tabs) and an optional comment, then the line feed
            lines        ALL line lists of content lines (any extra indentation, whitespace-only content lines, lines
                         that look like YAML, tabs; no break / NUL characters inside) and blank lines (at most
                         `indent` spaces), with at least one content line; auto-detection: the first content line
@@ -30,7 +30,7 @@
                         spaces: the end-of-stream path) or a line of an enclosing collection
            back-end     string input
    NOT proved (stated as [C05_full], exercised by the Examples below and by the differential run):
-   content indentation 0, a document marker after a content-less top-level scalar, header comments, CR / CR LF, the end of the input
+   content indentation 0, a document marker after a content-less top-level scalar, CR / CR LF, the end of the input
    after a whitespace-only last line without a line feed, buffered back-ends.  [C05_full] itself is refuted on the
    faithful model by three input classes (known_findings_c05.jsonl); the witnesses are theorems below. *)
 From Coq Require Import List NArith ZArith Bool Arith Lia.
@@ -98,10 +98,11 @@ Proof. exact skip_first_line_indent_spec. Qed.
 Print Assumptions C05_first_line_indent.
 
 (* ---- T4 ---- *)
-Theorem C05_block_scalar_partial : forall (s : sc strin) F literal c (explicit : option nat) (digit_first : bool)
+Theorem C05_block_scalar_partial : forall (s : sc strin) F literal c (explicit : option nat) (digit_first : bool) (hc : list chr)
     (lines : list bline) (j : nat) (r' : list chr) (n : nat) pz inds,
-  si_chars (sc_in s) = render_block n literal c explicit digit_first [] lines (EofRest (sps j ++ r')) ->
+  si_chars (sc_in s) = render_block n literal c explicit digit_first hc lines (EofRest (sps j ++ r')) ->
   unroll_nb (sc_indents s) (sc_indent s) = (pz, inds) ->
+  header_tail hc -> (2 * length hc + 2 < F)%nat ->
   n <> O -> Forall (line_ok F n) lines -> (S (length lines) < F)%nat -> has_text lines = true ->
   (j < n)%nat -> hd0 r' <> 32 -> is_break (hd0 r') = false -> (r' = [] -> j = O) ->
   match explicit with
@@ -114,10 +115,11 @@ Theorem C05_block_scalar_partial : forall (s : sc strin) F literal c (explicit :
 Proof. exact block_scalar_lines. Qed.
 Print Assumptions C05_block_scalar_partial.
 
-Theorem C05_block_scalar_eof_partial : forall (s : sc strin) F literal c (explicit : option nat) (digit_first : bool)
+Theorem C05_block_scalar_eof_partial : forall (s : sc strin) F literal c (explicit : option nat) (digit_first : bool) (hc : list chr)
     (lines : list bline) (n : nat) pz inds,
-  si_chars (sc_in s) = render_block n literal c explicit digit_first [] lines EofNone ->
+  si_chars (sc_in s) = render_block n literal c explicit digit_first hc lines EofNone ->
   unroll_nb (sc_indents s) (sc_indent s) = (pz, inds) ->
+  header_tail hc -> (2 * length hc + 2 < F)%nat ->
   n <> O -> Forall (line_ok F n) lines -> (S (length lines) < F)%nat -> has_text lines = true ->
   trailing_blanks lines = O ->
   match explicit with
@@ -131,9 +133,10 @@ Proof. exact block_scalar_lines_eof. Qed.
 Print Assumptions C05_block_scalar_eof_partial.
 
 Theorem C05_block_scalar_empty_partial : forall (s : sc strin) F literal c (explicit : option nat) (digit_first : bool)
-    (ks : list nat) (j : nat) (r' : list chr) pz inds,
-  si_chars (sc_in s) = header literal c explicit digit_first ++ 10 :: blank_lines ks ++ sps j ++ r' ->
+    (hc : list chr) (ks : list nat) (j : nat) (r' : list chr) pz inds,
+  si_chars (sc_in s) = header literal c explicit digit_first ++ hc ++ 10 :: blank_lines ks ++ sps j ++ r' ->
   unroll_nb (sc_indents s) (sc_indent s) = (pz, inds) ->
+  header_tail hc -> (2 * length hc + 2 < F)%nat ->
   Forall (fun k => (k < F)%nat) (j :: ks) -> (S (length ks) < F)%nat ->
   hd0 r' <> 32 -> is_break (hd0 r') = false -> hd0 (blank_lines ks ++ sps j ++ r') <> 9 ->
   (r' = [] \/ (hd0 r' <> 0 /\ (Z.of_nat j <= pz)%Z)) ->
@@ -156,9 +159,11 @@ Example C05_block_scalar_partial_instance :
   exists sp s', scan_block_scalar str_ops 40 true (init_sc {| si_chars := L "|-/  x//   y/ /z"; si_look := 0 |})
                 = Ok ((sp, TScalar Literal (L "x// y")), s') /\ si_chars (sc_in s') = L "z".
 Proof.
-  apply (block_scalar_lines _ 40 true CStrip None false [Text 0 (L "x"); Blank 0; Text 1 (L "y"); Blank 1] O (L "z") 2 (-1)%Z []).
+  apply (block_scalar_lines _ 40 true CStrip None false [] [Text 0 (L "x"); Blank 0; Text 1 (L "y"); Blank 1] O (L "z") 2 (-1)%Z []).
   - reflexivity.
   - reflexivity.
+  - apply ht_white. constructor.
+  - cbn. lia.
   - discriminate.
   - repeat (apply Forall_cons || apply Forall_nil); unfold line_ok, nobreak; cbn;
       repeat split; try discriminate; try (right; discriminate); try (left; discriminate); try lia; repeat constructor.
@@ -170,14 +175,16 @@ Proof.
   - discriminate.
   - split; [cbn; discriminate|]. exists (L "x"). split; [reflexivity|discriminate].
 Qed.
-Example C05_block_scalar_partial_instance_folded :
-  exists sp s', scan_block_scalar str_ops 60 false (init_sc {| si_chars := L ">2+/  x/  y//   z/  w/ /k: v"; si_look := 0 |})
+Example C05_block_scalar_partial_instance_folded :   (* with a header comment *)
+  exists sp s', scan_block_scalar str_ops 60 false (init_sc {| si_chars := L ">2+ # c/  x/  y//   z/  w/ /k: v"; si_look := 0 |})
                 = Ok ((sp, TScalar Folded (L "x y// z/w//")), s') /\ si_chars (sc_in s') = L "k: v".
 Proof.
-  apply (block_scalar_lines _ 60 false CKeep (Some 2%nat) true
+  apply (block_scalar_lines _ 60 false CKeep (Some 2%nat) true (L " # c")
            [Text 0 (L "x"); Text 0 (L "y"); Blank 0; Text 1 (L "z"); Text 0 (L "w"); Blank 1] O (L "k: v") 2 (-1)%Z []).
   - reflexivity.
   - reflexivity.
+  - apply (ht_comment [32] (L " c")); [repeat constructor|discriminate|repeat constructor].
+  - cbn. lia.
   - discriminate.
   - repeat (apply Forall_cons || apply Forall_nil); unfold line_ok, nobreak; cbn;
       repeat split; try discriminate; try (right; discriminate); try (left; discriminate); try lia; repeat constructor.
@@ -194,9 +201,11 @@ Example C05_block_scalar_empty_instance :   (* "- |+\n\n   <eof>" : keep counts 
   exists sp s', scan_block_scalar str_ops 20 true (init_sc {| si_chars := L "|+//   "; si_look := 0 |})
                 = Ok ((sp, TScalar Literal (L "//")), s') /\ si_chars (sc_in s') = [].
 Proof.
-  apply (block_scalar_empty _ 20 true CKeep None false [O] 3 [] (-1)%Z []).
+  apply (block_scalar_empty _ 20 true CKeep None false [] [O] 3 [] (-1)%Z []).
   - reflexivity.
   - reflexivity.
+  - apply ht_white. constructor.
+  - cbn. lia.
   - repeat constructor; lia.
   - cbn. lia.
   - discriminate.
